@@ -30,7 +30,15 @@
 (*       (= documented "disabled") SetMaxDecompressedBodySize.             *)
 (*   MC.cfg / Gen*.cfg use FALSE (the oracle is the property);             *)
 (*   MC_codeasis.cfg uses TRUE and is expected to violate C18_Http -- that *)
-(*   is the model finding the replay reproduces on the real code.          *)
+(*   is the model finding the replay reproduces on the real code           *)
+(*   (proposed_fix_C18.diff makes the code agree with FALSE).              *)
+(*                                                                         *)
+(* Not modelled / assumed: the clause "without decoding more than one byte *)
+(* past the cap" is not observable from outside and is not judged; the     *)
+(* property's carve-out (streaming zstd frames whose declared window       *)
+(* exceeds the decoded-size cap are refused as a memory bound) is the      *)
+(* unjudged action Decode_WindowOverCap; all positive caps are >= 1024,    *)
+(* the smallest window a zstd frame can declare.                           *)
 (***************************************************************************)
 EXTENDS Integers, Sequences, FiniteSets, TLC, VerifEmit
 
